@@ -10,6 +10,7 @@ stdout: '@@JSON ' + {"obs": [obs, ...]}
          "nodes": [["L", id, axis, [pt idx...], lo, hi] | ["N", id, axis, 2*split_value, left, right, lo, hi]],
          "knn": [[idx...] | ["error", msg]], "rad": [[idx...] | ["error", msg]]}
       | {"status": "timeout", "where": ...} | {"status": "error", "msg": ...}
+      | {"status": "skipped"}  (after `max_timeouts` build time-outs in this payload the remaining cases are not run)
   Box bounds are doubled integers or the strings "-inf" / "inf". Everything is doubled so that medians of integer
   coordinates (half-integers) stay integral on the Coq side.
 The pivots are observed by subclassing KDTree and overriding _find_pivot (no hook in /repo).
@@ -106,7 +107,18 @@ def run_case(case, timeout):
 def main():
     payload = json.load(sys.stdin)
     t = float(payload.get("timeout", 3.0))
-    obs = [run_case(c, t) for c in payload["cases"]]
+    max_to = int(payload.get("max_timeouts", 3))
+    obs = []
+    n_to = 0
+    for c in payload["cases"]:
+        if n_to >= max_to:
+            # enough hangs observed in this shard: do not spend the time budget on more of them
+            obs.append({"status": "skipped"})
+            continue
+        o = run_case(c, t)
+        if o["status"] == "timeout":
+            n_to += 1
+        obs.append(o)
     print("@@JSON " + json.dumps({"obs": obs}))
 
 
